@@ -91,3 +91,31 @@ Definition drains_before_events (f : fn_def) : bool :=
 
 Lemma cache_messages_first : drains_before_events hot_reloading_thread = true.
 Proof. vm_compute. reflexivity. Qed.
+
+(* The Condvar/Mutex wrappers of utils/private.rs, for both lock implementations: wait_while
+   re-checks its predicate after every wake-up (a `while`, not an `if`), notify_all wakes all,
+   lock locks. *)
+From AM Require Import Gen.Private.
+
+Definition wait_while_wf (f : fn_def) : bool :=
+  match fn_body f with
+  | [EBlock [EWhile (ECall (EPath ["condition"]) [ERef (EPath ["guard"])]) [body]; EPath ["guard"]]] =>
+      match body with
+      | ESemi (EAssign (EPath ["guard"]) (ECall (EPath ["wrap"]) [EMethod (EField (EPath ["self"]) "0") "wait" [EPath ["guard"]]])) => true
+      | ESemi (EMethod (EField (EPath ["self"]) "0") "wait" [ERef (EPath ["guard"])]) => true
+      | _ => false
+      end
+  | _ => false
+  end.
+
+Lemma wait_while_loops :
+  wait_while_wf Condvar_wait_while = true /\ wait_while_wf Condvar_wait_while_pl = true.
+Proof. vm_compute. split; reflexivity. Qed.
+
+Lemma notify_all_notifies :
+  fn_body Condvar_notify_all = [ESemi (EMethod (EField (EPath ["self"]) "0") "notify_all" [])].
+Proof. vm_compute. reflexivity. Qed.
+
+Lemma lock_locks :
+  fn_body Mutex_lock = [ECall (EPath ["wrap"]) [EMethod (EField (EPath ["self"]) "0") "lock" []]].
+Proof. vm_compute. reflexivity. Qed.
